@@ -2,8 +2,9 @@
 import interp_common
 from core import rng, run_cases
 
-MODULES = ["Props.C04"]
-THEOREMS = ["Props.C04.c04_line", "Props.C04.c04_run_monotone", "Props.C04.c04_loop_never_writes", "Props.C04.c04_aggregate", "Props.C04.c04_unexecuted_branch"]
+MODULES = ["Props.C04", "Props.WhenTie"]
+THEOREMS = ["Props.C04.c04_line", "Props.C04.c04_run_monotone", "Props.C04.c04_loop_never_writes", "Props.C04.c04_aggregate", "Props.C04.c04_unexecuted_branch",
+            "Props.WhenTie.when_source_is_model", "Props.WhenTie.c04_unexecuted_branch_source", "Props.WhenTie.interp_is_instance"]
 
 
 def run(check, tier):
